@@ -69,6 +69,9 @@ def main():
     src.append("fn main() {\n    let mut out: Vec<String> = vec![];\n    let b = <base::TBox<'static> as StableAbi>::LAYOUT;\n    let gb = <gbase::GBox<'static> as StableAbi>::LAYOUT;\n")
     for t in traits:
         src.append("    out.push(format!(\"{{\\\"kind\\\":\\\"trait\\\",\\\"name\\\":\\\"%s\\\",\\\"got\\\":\\\"{}\\\",\\\"rev\\\":\\\"{}\\\"}}\", v(compare_layouts(Some(b), Some(<e_%s::TBox<'static> as StableAbi>::LAYOUT))), v(compare_layouts(Some(<e_%s::TBox<'static> as StableAbi>::LAYOUT), Some(b)))));\n" % (t["name"], t["name"], t["name"]))
+    # the same comparisons through VerifyLayout::check::<Expected>(found)
+    for t in traits:
+        src.append("    out.push(format!(\"{{\\\"kind\\\":\\\"trait\\\",\\\"via\\\":\\\"check_fn\\\",\\\"name\\\":\\\"%s\\\",\\\"got\\\":\\\"{}\\\",\\\"rev\\\":\\\"{}\\\"}}\", v(VerifyLayout::check::<base::TBox<'static>>(Some(<e_%s::TBox<'static> as StableAbi>::LAYOUT))), v(VerifyLayout::check::<e_%s::TBox<'static>>(Some(b)))));\n" % (t["name"], t["name"], t["name"]))
     if "via_return" in data.get("reach", []):
         src.append("    let ob = <base::OuterBox<'static> as StableAbi>::LAYOUT;\n")
         for t in traits:
